@@ -1,11 +1,92 @@
-import TinysetModel.Proofs.Consts
-/-! C08 — see /verif/properties.jsonl.  Theorems for this property are being added; the ones
-below are the obligations checked so far. -/
+import TinysetModel.Proofs.PropsAux
+import TinysetModel.Proofs.Demo
+/-! C08 — `==` means same members whatever the history/layout; equal Set64s hash equally.
+
+`eqSet` is `PartialEq::eq` of SetU64/SetU32/SetUsize (`impl_set_methods!`: compare `len`, then every member of
+`self` is contained in `other`); `eqSet64` is `Set64::eq` (iterates the OTHER operand).  `hashInput` is the
+sequence `Set64::hash` feeds to the hasher (the encoded members, sorted).  The hypotheses are only `WF` of the
+operands: nothing is assumed about how they were built, their layouts or capacities.
+`Debug` of the untyped sets prints the type name followed by the list produced by `iter()`, i.e. `elems`
+(C04: exactly the members, once each); there is nothing further to prove about it in the model. -/
 namespace C08
 open SC
 
-/-- the model's constants are the ones in the current source -/
-theorem consts_match : TinyC.codec64.splits = Gen.bitsplits64 ∧ TinyC.codec32.splits = Gen.bitsplits32 :=
-  ⟨bitsplits64_match, bitsplits32_match⟩
+section generic
+variable {c : Cfg}
+
+/-- `a == b` exactly when `a` and `b` have the same members (any two well-formed representations) -/
+theorem eq_iff_same_members (ok : CfgOK c) {a b : Rp} (wa : WF c a) (wb : WF c b) :
+    eqSet c a b = true ↔ ∀ x, x ∈ elems c a ↔ x ∈ elems c b := eqSet_iff (coreOK ok detRng 0) wa wb
+/-- the same for `Set64::eq` -/
+theorem eq64_iff_same_members (ok : CfgOK c) {a b : Rp} (wa : WF c a) (wb : WF c b) :
+    eqSet64 c a b = true ↔ ∀ x, x ∈ elems c a ↔ x ∈ elems c b := eqSet64_iff (coreOK ok detRng 0) wa wb
+
+/-- `!=` exactly when some value is a member of one and not of the other (e.g. sets differing in one member) -/
+theorem ne_iff_differ (ok : CfgOK c) {a b : Rp} (wa : WF c a) (wb : WF c b) :
+    eqSet c a b = false ↔ ¬ ∀ x, x ∈ elems c a ↔ x ∈ elems c b := by
+  rw [← eqSet_iff (coreOK ok detRng 0) wa wb, Bool.not_eq_true]
+
+theorem eq_refl (ok : CfgOK c) {a : Rp} (wa : WF c a) : eqSet c a a = true := eqSet_refl (coreOK ok detRng 0) wa
+theorem eq_symm (ok : CfgOK c) {a b : Rp} (wa : WF c a) (wb : WF c b) (h : eqSet c a b = true) : eqSet c b a = true :=
+  eqSet_symm (coreOK ok detRng 0) wa wb h
+theorem eq_trans (ok : CfgOK c) {a b e : Rp} (wa : WF c a) (wb : WF c b) (we : WF c e)
+    (h1 : eqSet c a b = true) (h2 : eqSet c b e = true) : eqSet c a e = true :=
+  eqSet_trans (coreOK ok detRng 0) wa wb we h1 h2
+theorem eq64_refl (ok : CfgOK c) {a : Rp} (wa : WF c a) : eqSet64 c a a = true := eqSet64_refl (coreOK ok detRng 0) wa
+theorem eq64_symm (ok : CfgOK c) {a b : Rp} (wa : WF c a) (wb : WF c b) (h : eqSet64 c a b = true) : eqSet64 c b a = true :=
+  eqSet64_symm (coreOK ok detRng 0) wa wb h
+theorem eq64_trans (ok : CfgOK c) {a b e : Rp} (wa : WF c a) (wb : WF c b) (we : WF c e)
+    (h1 : eqSet64 c a b = true) (h2 : eqSet64 c b e = true) : eqSet64 c a e = true :=
+  eqSet64_trans (coreOK ok detRng 0) wa wb we h1 h2
+
+/-- equal sets have equal `len` -/
+theorem eq_len {a b : Rp} (h : eqSet c a b = true) : len a = len b := len_eq_of_eqSet h
+
+/-- what is hashed: the members in strictly increasing order, each once -/
+theorem hash_input (ok : CfgOK c) {a : Rp} (wa : WF c a) :
+    (hashInput c a).Pairwise (· < ·) ∧ (hashInput c a).Perm (elems c a) := hashInput_spec (coreOK ok detRng 0) wa
+/-- sets with the same members feed the hasher the identical sequence, whatever their representations -/
+theorem hash_congr (ok : CfgOK c) {a b : Rp} (wa : WF c a) (wb : WF c b)
+    (h : ∀ x, x ∈ elems c a ↔ x ∈ elems c b) : hashInput c a = hashInput c b := hashInput_congr (coreOK ok detRng 0) wa wb h
+/-- `a == b → hash(a) == hash(b)`, for either `==` -/
+theorem hash_of_eq (ok : CfgOK c) {a b : Rp} (wa : WF c a) (wb : WF c b) (h : eqSet c a b = true) :
+    hashInput c a = hashInput c b := hashInput_of_eqSet (coreOK ok detRng 0) wa wb h
+theorem hash_of_eq64 (ok : CfgOK c) {a b : Rp} (wa : WF c a) (wb : WF c b) (h : eqSet64 c a b = true) :
+    hashInput c a = hashInput c b :=
+  hashInput_congr (coreOK ok detRng 0) wa wb ((eqSet64_iff (coreOK ok detRng 0) wa wb).1 h)
+
+end generic
+
+/-! ### instances -/
+
+theorem eq_iff_same_members_u64 {a b : Rp} (wa : WF cfg64 a) (wb : WF cfg64 b) :
+    eqSet cfg64 a b = true ↔ ∀ x, x ∈ elems cfg64 a ↔ x ∈ elems cfg64 b := eqSet_iff (coreOK cfg64_ok detRng 0) wa wb
+theorem eq_iff_same_members_u32 {a b : Rp} (wa : WF cfg32 a) (wb : WF cfg32 b) :
+    eqSet cfg32 a b = true ↔ ∀ x, x ∈ elems cfg32 a ↔ x ∈ elems cfg32 b := eqSet_iff (coreOK cfg32_ok detRng 0) wa wb
+/-- `Set64<T>` (members are the `to_u64` encodings, C03) -/
+theorem eq64_iff_same_members_u64 {a b : Rp} (wa : WF cfg64 a) (wb : WF cfg64 b) :
+    eqSet64 cfg64 a b = true ↔ ∀ x, x ∈ elems cfg64 a ↔ x ∈ elems cfg64 b := eqSet64_iff (coreOK cfg64_ok detRng 0) wa wb
+theorem hash_of_eq64_u64 {a b : Rp} (wa : WF cfg64 a) (wb : WF cfg64 b) (h : eqSet64 cfg64 a b = true) :
+    hashInput cfg64 a = hashInput cfg64 b := hash_of_eq64 cfg64_ok wa wb h
+theorem hash_input_u64 {a : Rp} (wa : WF cfg64 a) :
+    (hashInput cfg64 a).Pairwise (· < ·) ∧ (hashInput cfg64 a).Perm (elems cfg64 a) := hashInput_spec (coreOK cfg64_ok detRng 0) wa
+
+/-! ### the hypotheses are satisfiable: the same members in two different layouts -/
+
+/-- `{3, 5, 1000}` as an inline word and as a heap table -/
+theorem demo_table : extend cfg64 detRng 6 (withCapOf Demo.plain64) [1000, 5, 3] () =
+    .ok (.heap 3 4 9838956529666160483 #[1000, 5, 0, 3], ()) := by decide +kernel
+theorem demo_table_wf : WF cfg64 (.heap 3 4 9838956529666160483 #[1000, 5, 0, 3]) :=
+  (extend_spec cfg64_ok detRng 6 (withCapOf_ok cfg64_ok Demo.plain64_wf).1 (by decide) demo_table).1
+example : eqSet cfg64 Demo.inline (.heap 3 4 9838956529666160483 #[1000, 5, 0, 3]) = true := by decide +kernel
+/-- … so by the theorems (not by evaluation) they have the same members and the same hash input -/
+example : hashInput cfg64 Demo.inline = hashInput cfg64 (.heap 3 4 9838956529666160483 #[1000, 5, 0, 3]) :=
+  hash_of_eq cfg64_ok Demo.inline64_wf demo_table_wf (by decide +kernel)
+example : eqSet cfg64 Demo.inline Demo.bitmap64 = false := by decide +kernel
 
 end C08
+
+#print axioms C08.eq_iff_same_members
+#print axioms C08.eq64_iff_same_members
+#print axioms C08.hash_congr
+#print axioms C08.hash_of_eq
